@@ -83,6 +83,8 @@ class _Atom:
     def cond(cls, engine, src, flags, ch):
         """True / False / z3 Bool: does the atom accept item ch"""
         if isinstance(ch, SChar):
+            if ch.conv:
+                raise Unsupported("regex on a partially transliterated digit")
             s = cls.sig(engine, src, flags, ch.base)
             if len(s) == 10:
                 return True
@@ -316,6 +318,8 @@ class SPattern:
 
     # ---- digit-blindness
     def _is_blind(self, t):
+        if any(isinstance(i, SChar) and i.conv for i in t.items):
+            raise Unsupported("regex on a partially transliterated digit")
         if self.tree is None:
             return None
         if not self._noref:
